@@ -46,7 +46,26 @@ PROGRAM_CFG = {
     'kwargs': True,
     'p_async': 0.4,
 }
-INPUTS = [None, {}, {'a': 1}, {'a': 'x', 'ns': {'x': [1, 2], 'y': {'deep': True}}}, {'n': None, 'f': 2.5}]
+INPUTS = [None, {}, {'a': 1}, {'a': 'x', 'ns': {'x': [1, 2], 'y': {'deep': True}}}, {'n': None, 'f': 2.5},
+          {'t': {'__tuple__': [1, 'two', [3]]}, 's': {'__set__': [1, 2, 3]}}, {'u': {'__uuid__': 12345}, 'ns': {'t': {'__tuple__': []}}},
+          {'empty': {}, 'zero': 0, 'false': False, 'text': ''}]
+
+
+def materialise(value):
+    """JSON cannot carry tuples, sets or UUIDs: cases mark them and they are built here."""
+    import uuid
+
+    if isinstance(value, dict):
+        if set(value) == {'__tuple__'}:
+            return tuple(materialise(v) for v in value['__tuple__'])
+        if set(value) == {'__set__'}:
+            return set(value['__set__'])
+        if set(value) == {'__uuid__'}:
+            return uuid.UUID(int=value['__uuid__'])
+        return {k: materialise(v) for k, v in value.items()}
+    if isinstance(value, list):
+        return [materialise(v) for v in value]
+    return value
 
 
 def systematic(tier):
@@ -112,6 +131,9 @@ def _shrink_wc(case):
 def run(case):
     result = Result()
     plumpy = common.plumpy()
+    case = copy.deepcopy(case)
+    if case['program'].get('inputs') is not None:
+        case['program']['inputs'] = materialise(case['program']['inputs'])
     engine = common.new_engine(case, record_hooks=False)
     state = {'paused_checked': False}
     loader_box = {}
